@@ -39,11 +39,13 @@ theorem drop_zeros (e d : Nat) (x : Bytes) (h : d ≤ e) : (zeros e ++ x).drop d
 theorem zeros_add (a b : Nat) : zeros (a + b) = zeros a ++ zeros b := by
   simp [zeros]
 
-theorem updatePaddings_spec (M : Meta) (hwf : M.wf) :
+/-- `update_paddings` on the fields `rest` (followed by foreign bytes `T`, which it never touches): every field ends
+    up at its aligned offset -/
+theorem updatePaddings_spec (M : Meta) (hwf : M.wf) (T : Bytes) :
     ∀ (rest : List (Nat × Bytes)) (off k i : Nat) (offset : Int) (pre : Bytes) (fuel : Nat),
       Sized M rest → (pre.length : Int) = offset + i + k → fuel > k + (descL M rest off).length →
-      updatePaddings fuel (List.replicate k 1 ++ descL M rest off) i offset (pre ++ enc M rest off)
-        = .ok (pre ++ enc M rest (pre.length + 4)) := by
+      updatePaddings fuel (List.replicate k 1 ++ descL M rest off) i offset (pre ++ (enc M rest off ++ T))
+        = .ok (pre ++ (enc M rest (pre.length + 4) ++ T)) := by
   intro rest
   induction rest with
   | nil =>
@@ -73,7 +75,7 @@ theorem updatePaddings_spec (M : Meta) (hwf : M.wf) :
         simp only [← List.append_assoc, List.replicate_append_replicate]
         congr 2
         omega
-      have he : pre ++ enc M ((b, v) :: r) off = (pre ++ v) ++ enc M r (off + v.length) := by
+      have he : pre ++ (enc M ((b, v) :: r) off ++ T) = (pre ++ v) ++ (enc M r (off + v.length) ++ T) := by
         simp [enc, ha1, padTo_one, zeros]
       rw [hd, he]
       have hlen : (descL M ((b, v) :: r) off).length = v.length + (descL M r (off + v.length)).length := by
@@ -106,31 +108,32 @@ theorem updatePaddings_spec (M : Meta) (hwf : M.wf) :
           rw [calculatePadding_eq _ _ hapos]
           have := padTo_lt (M.align b) (pre.length + 4) hapos
           omega
-        have hbuf : pre ++ enc M ((b, v) :: r) off = pre ++ (zeros e ++ (v ++ enc M r off')) := by
+        have hbuf : pre ++ (enc M ((b, v) :: r) off ++ T) = pre ++ (zeros e ++ (v ++ (enc M r off' ++ T))) := by
           simp [enc, e, off']
         have hflen : (descL M ((b, v) :: r) off).length = e + 1 + (M.size b - 1) + (descL M r off').length := by
           rw [hdesc]; simp; omega
-        have htarget : pre ++ enc M ((b, v) :: r) (pre.length + 4)
+        have htarget : pre ++ (enc M ((b, v) :: r) (pre.length + 4) ++ T)
             = (pre ++ zeros (padTo (M.align b) (pre.length + 4)) ++ v) ++
-              enc M r ((pre ++ zeros (padTo (M.align b) (pre.length + 4)) ++ v).length + 4) := by
+              (enc M r ((pre ++ zeros (padTo (M.align b) (pre.length + 4)) ++ v).length + 4) ++ T) := by
           simp only [enc, List.append_assoc, List.length_append, zeros_length]
-          congr 4
+          congr 5
           omega
         unfold updatePaddings
         simp only [s1, s2, hpos, hneeded, hnonneg, false_or]
         have hex : i + k + e - (i + k) = e := by omega
         simp only [hex]
         generalize hn : padTo (M.align b) (pre.length + 4) = needed at htarget ⊢
-        have hlenbuf : (pre ++ enc M ((b, v) :: r) off).length = pre.length + (e + (v.length + (enc M r off').length)) := by
+        have hlenbuf : (pre ++ (enc M ((b, v) :: r) off ++ T)).length
+            = pre.length + (e + (v.length + ((enc M r off').length + T.length))) := by
           rw [hbuf]; simp [zeros_length]
         by_cases hgt : e > needed
         · simp only [hgt, if_true]
-          have hnf : ¬ (pre.length + (e - needed) > (pre ++ enc M ((b, v) :: r) off).length) := by
+          have hnf : ¬ (pre.length + (e - needed) > (pre ++ (enc M ((b, v) :: r) off ++ T)).length) := by
             rw [hlenbuf]; omega
           simp only [hnf, if_false]
-          have hb' : (pre ++ enc M ((b, v) :: r) off).take pre.length ++
-              (pre ++ enc M ((b, v) :: r) off).drop (pre.length + (e - needed))
-              = (pre ++ zeros needed ++ v) ++ enc M r off' := by
+          have hb' : (pre ++ (enc M ((b, v) :: r) off ++ T)).take pre.length ++
+              (pre ++ (enc M ((b, v) :: r) off ++ T)).drop (pre.length + (e - needed))
+              = (pre ++ zeros needed ++ v) ++ (enc M r off' ++ T) := by
             rw [hbuf, take_pre, drop_pre_add, drop_zeros _ _ _ (by omega)]
             have : e - (e - needed) = needed := by omega
             simp [this]
@@ -141,13 +144,13 @@ theorem updatePaddings_spec (M : Meta) (hwf : M.wf) :
         · simp only [hgt, if_false]
           by_cases hlt : e < needed
           · simp only [hlt, if_true]
-            have hnf : ¬ (pre.length > (pre ++ enc M ((b, v) :: r) off).length) := by
+            have hnf : ¬ (pre.length > (pre ++ (enc M ((b, v) :: r) off ++ T)).length) := by
               rw [hlenbuf]; omega
             simp only [hnf, if_false]
-            have hb' : (pre ++ enc M ((b, v) :: r) off).take pre.length ++ zeros (needed - e) ++
-                (pre ++ enc M ((b, v) :: r) off).drop pre.length
-                = (pre ++ zeros needed ++ v) ++ enc M r off' := by
-              have h0 := drop_pre_add pre (zeros e ++ (v ++ enc M r off')) 0
+            have hb' : (pre ++ (enc M ((b, v) :: r) off ++ T)).take pre.length ++ zeros (needed - e) ++
+                (pre ++ (enc M ((b, v) :: r) off ++ T)).drop pre.length
+                = (pre ++ zeros needed ++ v) ++ (enc M r off' ++ T) := by
+              have h0 := drop_pre_add pre (zeros e ++ (v ++ (enc M r off' ++ T))) 0
               simp only [Nat.add_zero, List.drop_zero] at h0
               rw [hbuf, take_pre, h0]
               have : needed = (needed - e) + e := by omega
@@ -159,7 +162,7 @@ theorem updatePaddings_spec (M : Meta) (hwf : M.wf) :
             · omega
           · simp only [hlt, if_false]
             have heq : e = needed := by omega
-            have hb' : pre ++ enc M ((b, v) :: r) off = (pre ++ zeros needed ++ v) ++ enc M r off' := by
+            have hb' : pre ++ (enc M ((b, v) :: r) off ++ T) = (pre ++ zeros needed ++ v) ++ (enc M r off' ++ T) := by
               rw [hbuf, heq]; simp
             rw [hb', htarget]
             apply ih off' (M.size b - 1) (i + k + e + 1) _ _ f hr
